@@ -41,7 +41,7 @@ RULE = (
     "of the target configuration and a probe"
 )
 LEVEL_TEXT = (
-    "Seeded search over prior histories of everything that shares the three global RNGs and the re-seeding side effects of config construction/loading, in K interpreters with different PYTHONHASHSEED plus truly fresh interpreters; each probe must reproduce the golden digest of a pristine process bit for bit, filtered probes must equal the filter reference model applied to the golden unfiltered dataset, and the caller's configuration object must be untouched. Noise includes near neighbours of the target generated beforehand, exceptions in the middle of earlier operations and a few long histories; targets include float-proportion arguments, sizes up to 10000 mazes and default-argument probes; one interpreter slot in three runs under python -O. Sampling, not proof.",
+    "Seeded search over prior histories of everything that shares the three global RNGs and the re-seeding side effects of config construction/loading, in K interpreters with different PYTHONHASHSEED plus truly fresh interpreters; each probe must reproduce the golden digest of a pristine process bit for bit, filtered probes must equal the filter reference model applied to the golden unfiltered dataset, and the caller's configuration object must be untouched. Noise includes near neighbours of the target generated beforehand, exceptions in the middle of earlier operations, cache reads that fail on a damaged file and fall back to regeneration, and a few long histories; targets include float-proportion arguments, sizes up to 10000 mazes and default-argument probes; one interpreter slot in three runs under python -O. Sampling, not proof.",
     "Trusted: sha256; filter reference model of C08; configurations with seed=None are excluded (their seed is drawn from OS entropy, which no simulator owns). One history in five runs in a process that is itself a worker of a pool the caller runs (non-empty multiprocessing identity): serial generation there must give the same dataset as in a main process.",
 )
 
@@ -169,8 +169,19 @@ def st_history(spec, golden):
                     c = _ds.make_cfg(op[1])
                     base = os.path.join(spec["scratch"], "cache%d" % len(events))
                     MazeDataset.from_config(c, local_base_path=base)
+                    damage = op[2] if len(op) > 2 else None
+                    if damage:
+                        # ... and finds the file damaged the next time (a writer killed half-way, a disk that lost the tail, a
+                        # file from another tool): the failed read and the regeneration that follows are history like any other
+                        for fn in sorted(os.listdir(base)):
+                            fp = os.path.join(base, fn)
+                            if os.path.isfile(fp):
+                                data = open(fp, "rb").read()
+                                with open(fp, "wb") as fh:
+                                    fh.write({"trunc": data[: len(data) // 2], "empty": b"", "garbage": b"not a zip archive" * 8, "tail": data[:-1]}[damage])
+                        bump("probe_noise_failed_cache_read")
                     others.append(MazeDataset.from_config(_ds.make_cfg(op[1]), local_base_path=base))
-                    events.append(["cache_roundtrip", op[1]["seed"]])
+                    events.append(["cache_roundtrip", op[1]["seed"], damage])
                 elif k == "filter_other":
                     if others:
                         d = others[op[1] % len(others)]
@@ -372,9 +383,9 @@ def rand_noise(rng: random.Random, T: dict) -> list:
         c = _ds.rand_cfgspec(rng, max_n=5, max_mazes=4, filters=rng.random() < 0.3, rich_endpoints=False)
         par = rng.random() < 0.3
         return ["generate", c, par, rng.choice(["generate", "from_config"]), ({"processes": rng.randint(1, 3)} if par else {})]
-    if r < 0.76:
+    if r < 0.79:
         c = _ds.rand_cfgspec(rng, max_n=4, max_mazes=3, filters=False, rich_endpoints=False)
-        return ["cache_roundtrip", c]
+        return ["cache_roundtrip", c, rng.choice([None, "trunc", "empty", "garbage", "tail"])]
     if r < 0.82:
         return ["filter_other", rng.randrange(4), rng.choice(["deepcopy", "path_length"]), rng.randint(1, 3)]
     if r < 0.92:
